@@ -33,7 +33,7 @@ RULE = ("one evaluation = one generated history (2-3 client sessions, up to 30 o
 COMPONENTS = {"real": ["dtw.py, dtw_ndim.py, ed.py, dtw_barycenter.py, util.py (SeriesContainer), util_numpy.py", "dtw_cc / ed_cc (C engine)",
                        "subsequence/*.py, clustering/hierarchical.py, clustering/kmeans.py (as long-lived objects on the shared pool)"],
               "stub": ["client sessions and their interleaving (seeded scheduler)", "twins: the same call in a fresh context (same representations) and on canonical contiguous copies"]}
-ASSUMPTIONS = ["bounds: mostly 3..6 series of length 2..8 (one history in 12: 7..12 series of length 9..24), 2..3 bivariate series, histories <= 30 ops",
+ASSUMPTIONS = ["bounds: mostly 3..6 series of length 2..8 (one history in 12: 7..12 series of length 9..24; one in ~40: 3..6 series of 130..190 samples, C engine only), 2..3 bivariate series, histories <= 30 ops",
                "container independence is compared with rel. tol 1e-9 (Python 3.12 sums Python floats with compensation but NumPy scalars without: list and ndarray inputs differ in the last bit); history independence is compared bit for bit", "a call that RAISES for a container kind it does not accept (plain lists handed to the C entry points, ...) is permitted if inputs stay untouched and "
                "the fresh same-representation twin raises the same way; a call that RETURNS must return the canonical value",
                "psi is kept <= window and <= the shortest series (outside that the C kernels write beyond their buffer, which is C08's subject)",
@@ -49,12 +49,15 @@ NPAIR_FNS = ["ndistance", "ndistance_fast", "nwarping_paths", "nwarping_path", "
 def gen_history(st):
     rng = st("workload")
     big = rng.below(12) == 0          # swarm sizing: one history in 12 has more and longer series
+    huge = (not big) and rng.below(40) == 0
+    # one history in ~40: few series of 130..190 samples, C engine only.  Buffers of >= 1024 bytes bypass NumPy's small-block
+    # cache, so memory the library frees really goes back to the allocator (and is overwritten, MALLOC_PERTURB_).
     m = 7 + rng.below(6) if big else 3 + rng.below(4)
     equal = rng.below(2) == 0
-    L0 = 9 + rng.below(16) if big else 2 + rng.below(7)
+    L0 = (130 + rng.below(60)) if huge else (9 + rng.below(16) if big else 2 + rng.below(7))
     series = []
     for i in range(m):
-        L = L0 if equal else (9 + rng.below(16) if big else 2 + rng.below(7))
+        L = L0 if equal else ((130 + rng.below(60)) if huge else (9 + rng.below(16) if big else 2 + rng.below(7)))
         series.append([float(rng.below(5)) if rng.below(3) else round(rng.uniform(-2, 4), 2) for _ in range(L)])
     nser = [[[float(rng.below(4)), float(rng.below(3))] for _ in range(2 + rng.below(5))] for _ in range(2 + rng.below(2))]
     minlen = min(len(s) for s in series)
@@ -147,6 +150,22 @@ def gen_history(st):
                 if objs:
                     programs[s].append({"op": "use", "obj": rng.below(objs), "k": rng.choice([1, 2, 3, None]), "cont": rng.below(len(conts)),
                                         "npseed": rng.below(2 ** 31), "pyseed": rng.below(2 ** 31)})
+    if huge:
+        cfn = {"distance": "distance_fast", "warping_paths": "warping_paths_fast", "warping_path": "warping_path_fast", "ed_distance": "ed_distance_fast",
+               "best_path": "warping_paths_fast", "warp": "distance_fast", "ub_euclidean": "ed_distance_fast"}
+        for prog in programs:
+            keep = []
+            for o in prog:
+                if o["op"] == "pair":
+                    o["fn"] = cfn.get(o["fn"], o["fn"]); o["use_c"] = True
+                    keep.append(o)
+                elif o["op"] == "matrix":
+                    o["use_c"] = True
+                    keep.append(o)
+                elif o["op"] == "dba":
+                    o["use_c"] = True; o["max_it"] = 2
+                    keep.append(o)
+            prog[:] = keep[:5]
     ops = sessions.interleave(st("sessions"), programs)
     return {"setup": setup, "ops": ops}
 
